@@ -379,12 +379,13 @@ pub fn case(ctx: &mut Ctx, idx: u64) {
             return;
         }
     };
+    let main_dump = dump(&res.as_ref().map_err(std::io::Error::kind));
     let map = match res {
         Ok(m) => m,
         Err(_) => {
             ctx.count("decode:io-error");
             // an io::Error is an allowed outcome; still compare the other entry points below
-            compare_paths(ctx, &bytes, &input_repr, &tag, idx);
+            compare_paths(ctx, &bytes, &input_repr, &tag, idx, &main_dump);
             return;
         }
     };
@@ -436,7 +437,7 @@ pub fn case(ctx: &mut Ctx, idx: u64) {
         }
     }
 
-    compare_paths(ctx, &bytes, &input_repr, &tag, idx);
+    compare_paths(ctx, &bytes, &input_repr, &tag, idx, &main_dump);
 
     if idx % 8 == 0 && !small {
         drive_sorters(ctx, &mut rng);
@@ -444,16 +445,30 @@ pub fn case(ctx: &mut Ctx, idx: u64) {
     ctx.sample(|| format!("src={tag} bytes={} mode={:?} objects={} timing={} ", bytes.len(), map.mode, map.hit_objects.len(), map.timing_points.len()));
 }
 
-fn compare_paths(ctx: &mut Ctx, bytes: &[u8], input_repr: &str, tag: &str, idx: u64) {
+thread_local! {
+    static PREV_INPUT: std::cell::RefCell<Vec<u8>> = const { std::cell::RefCell::new(Vec::new()) };
+}
+
+/// The path of the only slider converts its first segment and then fails on the second (`12` is not a point), and a
+/// second file line makes sure nothing valid follows: whatever the decoder keeps in scratch buffers is left behind.
+const HALF_REJECTED_SLIDER: &str = "osu file format v14\n\n[TimingPoints]\n0,400,4,2,0,60,1,0\n\n[HitObjects]\n64,64,500,1,0\n100,100,1000,2,0,B|200:200|250:200|L|300:300|12,1,100\n";
+
+fn compare_paths(ctx: &mut Ctx, bytes: &[u8], input_repr: &str, tag: &str, idx: u64, main: &str) {
     // from_bytes == from_path (arbitrary bytes); == from_str for valid UTF-8
     let tmp = format!("/tmp/rpv-c06-{}-{}.osu", std::process::id(), idx);
     if std::fs::write(&tmp, bytes).is_err() {
         ctx.harness_error("cannot write temp file");
         return;
     }
+    // Between the three entry points the decoder is used on *other* content (the previous case's input and a file whose
+    // last slider line is rejected half-way through its path): "the same content gives equal maps" must not depend on
+    // what this thread decoded in between (scratch buffers, thread-locals, lazily initialised state).
+    let prev: Vec<u8> = PREV_INPUT.with(|p| p.replace(bytes.to_vec()));
     let r = guard(|| {
         let a = bracket("decode", || Beatmap::from_bytes(bytes)).map_err(|e| e.kind());
+        let _ = bracket("decode", || Beatmap::from_bytes(&prev));
         let b = bracket("decode", || Beatmap::from_path(&tmp)).map_err(|e| e.kind());
+        let _ = bracket("decode", || Beatmap::from_bytes(HALF_REJECTED_SLIDER.as_bytes()));
         let c = std::str::from_utf8(bytes).ok().map(|s| bracket("decode", || Beatmap::from_str(s)).map_err(|e| e.kind()));
         (dump(&a), dump(&b), c.map(|c| dump(&c)))
     });
@@ -462,6 +477,9 @@ fn compare_paths(ctx: &mut Ctx, bytes: &[u8], input_repr: &str, tag: &str, idx: 
     match r {
         Err(p) => ctx.violation(&format!("C06/decode-panic/{}", p.sig()), &format!("{} at {} src={tag}", p.msg, p.loc), Some(input_repr)),
         Ok((a, b, c)) => {
+            if a != main {
+                ctx.violation("C06/paths/bytes-twice", &format!("two from_bytes calls on the same content decode differently | src={tag}"), Some(input_repr));
+            }
             if a != b {
                 ctx.violation("C06/paths/bytes-vs-path", &format!("from_bytes and from_path decode differently | src={tag}"), Some(input_repr));
             }
